@@ -2,7 +2,7 @@
    Statements only; proofs are in Proofs/MuxProofs.v; the model is Model/MuxHeader.v + Model/Mux.v
    (tied to node/components/network/src/mux/*.rs by the differential check of gen/c14.py). *)
 From Coq Require Import ZArith List Bool Lia Sorting.Sorted.
-From EC Require Import Lib.Outcome Lib.Obs Model.MuxHeader Model.Mux Proofs.MuxProofs.
+From EC Require Import Lib.Outcome Lib.Obs Model.MuxHeader Model.Mux Proofs.MuxProofs Proofs.MuxRefine Proofs.MuxControl.
 Import ListNotations.
 Open Scope Z_scope.
 
@@ -139,30 +139,112 @@ Theorem C14_write_framing : forall wfsz buf data frames buf',
 Proof. exact write_all_spec. Qed.
 Print Assumptions C14_write_framing.
 
-(* ---- the full statement, over the composed two-sided system; NOT proved here (see `partial` in
-   evidence/C14.json): the theorems above are its per-component parts, the composition through
-   [settle] for all scripts is covered by the differential correspondence only ---- *)
-Definition ep_held (e : endpoint) : list frame :=
-  flat_map (fun s => (match s_cache s with Some f => [f] | None => [] end) ++ s_inq s) (e_acc e ++ e_con e).
-Definition step_sys (s : sys) (o : op) : sys :=
-  let s1 := apply_op (clear_obs s) o in settle (settle_fuel s1) s1.
-Definition reachable (raw : bool) (a b : side_cfg) (s : sys) : Prop :=
-  exists ops, s = fold_left step_sys ops (let s0 := sys_init raw a b in settle (settle_fuel s0) s0).
-Definition app_streams (e : endpoint) (k c : Z) : nat :=
-  length (filter (fun s => (s_cap s =? c) && match s_wph s, s_rph s with WApp, _ | _, RApp => true | _, _ => false end)
-                 (table e k)).
-Definition C14_full : Prop :=
-  forall raw a b s, reachable raw a b s ->
-    (* flow control of the composed endpoint, any peer *)
-    sum_data (ep_held (sB s)) <= rbs (sd_cfg b) /\
-    Z.of_nat (length (ep_held (sB s))) <= rfc (sd_cfg b) /\
-    (* open transient streams per capability *)
-    (forall k c, Z.of_nat (app_streams (sB s) k c) <=
-                 Z.max 0 (Z.min (lookup_def (bt_of_list (if k =? 0 then sd_acc b else sd_con b)) c)
-                                (lookup_def (if k =? 0 then sd_con a else sd_acc a) c))) /\
-    (* isolation and order: a completed read on slot r returns the bytes [data_byte w] of exactly one
-       writer slot w of the other side, at consecutive offsets starting from 0 *)
-    True.
+(* ======================================================================================
+   The composed system.  [reachable raw a b s]: s is the quiescent state of the two-sided system
+   (or of one endpoint B against an arbitrary raw peer when raw = true) after the start-up and any
+   list of application operations / raw byte injections, each followed by the drain to quiescence.
+   ====================================================================================== *)
+
+(* (1) refinement: in every reachable state each endpoint of the executable model is a reachable state
+   of the flow-control transition system of C14_buffer_bounded (same dispatcher step function), and
+   the dispatcher only ever works on a header naming an existing stream *)
+Theorem C14_endpoint_refines : forall raw a b s, reachable raw a b s ->
+  ep_ok (sB s) /\ e_cfg (sB s) = sd_cfg b /\ ep_ok (sA s) /\ (raw = false -> e_cfg (sA s) = sd_cfg a).
+Proof. exact reachable_refines. Qed.
+Print Assumptions C14_endpoint_refines.
+
+(* hence buffer_bounded holds for the executable endpoint: any script of the application, any byte
+   sequence of a raw peer (bytes are octets: the transport reduces whatever is written mod 256) *)
+Theorem C14_endpoint_buffer_bounded : forall raw a b s, cfg_nonneg (sd_cfg b) -> reachable raw a b s ->
+  sum_data (ep_held (sB s)) + infl_s (d_st (e_d (sB s))) <= rbs (sd_cfg b) /\
+  Z.of_nat (length (ep_held (sB s))) + infl_c (d_st (e_d (sB s))) <= rfc (sd_cfg b) /\
+  Forall (fun f => Z.of_nat (length (fdata f)) <= rfs (sd_cfg b)) (ep_held (sB s)).
+Proof. exact endpoint_buffer_bounded. Qed.
+Print Assumptions C14_endpoint_buffer_bounded.
+
+Theorem C14_endpoint_buffer_bounded_A : forall a b s, cfg_nonneg (sd_cfg a) -> reachable false a b s ->
+  sum_data (ep_held (sA s)) + infl_s (d_st (e_d (sA s))) <= rbs (sd_cfg a) /\
+  Z.of_nat (length (ep_held (sA s))) + infl_c (d_st (e_d (sA s))) <= rfc (sd_cfg a) /\
+  Forall (fun f => Z.of_nat (length (fdata f)) <= rfs (sd_cfg a)) (ep_held (sA s)).
+Proof. exact endpoint_buffer_bounded_A. Qed.
+Print Assumptions C14_endpoint_buffer_bounded_A.
+
+(* (2) at most one transient stream per reusable stream: two application handles that both still hold
+   a half of the same reusable stream are the same handle *)
+Theorem C14_one_transient_per_stream : forall raw a b s r1 r2 i, reachable raw a b s ->
+  In r1 (e_slots (sB s)) -> In r2 (e_slots (sB s)) -> sl_sid r1 = Some i -> sl_sid r2 = Some i ->
+  (sl_kind r1 =? 0) = (sl_kind r2 =? 0) -> live r1 = true -> live r2 = true -> r1 = r2.
+Proof.
+  intros raw a b s r1 r2 i Hr. destruct (reachable_K raw a b s Hr) as [_ HB]. apply one_transient_per_stream. exact HB.
+Qed.
+Print Assumptions C14_one_transient_per_stream.
+
+Theorem C14_one_transient_per_stream_A : forall raw a b s r1 r2 i, reachable raw a b s ->
+  In r1 (e_slots (sA s)) -> In r2 (e_slots (sA s)) -> sl_sid r1 = Some i -> sl_sid r2 = Some i ->
+  (sl_kind r1 =? 0) = (sl_kind r2 =? 0) -> live r1 = true -> live r2 = true -> r1 = r2.
+Proof.
+  intros raw a b s r1 r2 i Hr. destruct (reachable_K raw a b s Hr) as [HA _]. apply one_transient_per_stream. exact HA.
+Qed.
+Print Assumptions C14_one_transient_per_stream_A.
+
+(* open_streams_bounded for the composed system: the handles that hold a half of a stream of
+   capability c on queue kind k (0 = accept queue, otherwise connect queue) number at most
+   min(local limit, limit announced by the peer); 0 if either side does not list c *)
+Theorem C14_open_streams_bounded : forall raw a b s k c, reachable raw a b s ->
+  Z.of_nat (length (open_transient (sB s) k c)) <=
+  Z.max 0 (Z.min (lookup_def (bt_of_list (if k =? 0 then sd_acc b else sd_con b)) c)
+                 (lookup_def (if k =? 0 then (if raw then sd_con a else bt_of_list (sd_con a))
+                              else (if raw then sd_acc a else bt_of_list (sd_acc a))) c)).
+Proof. exact open_streams_bounded. Qed.
+Print Assumptions C14_open_streams_bounded.
+
+Theorem C14_open_streams_bounded_A : forall a b s k c, reachable false a b s ->
+  Z.of_nat (length (open_transient (sA s) k c)) <=
+  Z.max 0 (Z.min (lookup_def (bt_of_list (if k =? 0 then sd_acc a else sd_con a)) c)
+                 (lookup_def (bt_of_list (if k =? 0 then sd_con b else sd_acc b)) c)).
+Proof. exact open_streams_bounded_A. Qed.
+Print Assumptions C14_open_streams_bounded_A.
+
+(* ---- what remains of the full statement: NOT proved (see `partial` in evidence/C14.json) ----
+   stream_isolation_and_order for the composed two-sided system: the bytes a handle has read are a
+   prefix of the bytes its counterpart (a handle of the other side, same capability, opposite queue
+   kind) wrote, and complete when end-of-stream is reported.  Stated on the observations of the
+   model ([slot; 1; want; len; hash] events; data of handle w at offset k is [data_byte w k]).
+   The per-component ingredients are proved above (write framing, FIFO transport, routing, isolation
+   inside an endpoint, in-order loss-free read_exact, EOS only after CLOSE, frames after a CLOSE
+   invisible); their composition across the byte-level wire, the chunking dispatcher and the
+   OPEN/CLOSE incarnation boundaries is covered by the differential correspondence and the
+   predicates of gen/c14.py only. *)
+Definition ev_read (o : obsv) : list (Z * Z * Z * Z) :=
+  match o with OL [OZ s; OZ 1; OZ w; OZ l; OZ h] => [(s, w, l, h)] | _ => [] end.
+Definition round_reads (o : obsv) : list (Z * Z * Z * Z) :=
+  match o with OL (OL evs :: _) => flat_map ev_read evs | _ => [] end.
+Definition all_reads (o : obsv) : list (Z * Z * Z * Z) :=
+  match o with OL rounds => flat_map round_reads rounds | _ => [] end.
+Definition reads_of (slot : Z) (l : list (Z * Z * Z * Z)) : list (Z * Z * Z * Z) :=
+  filter (fun x => fst (fst (fst x)) =? slot) l.
+Definition C14_remaining_isolation_and_order : Prop :=
+  forall a b ops slot,
+    let rs := reads_of slot (all_reads (run_script false a b ops)) in
+    rs <> [] ->
+    exists side kind cap side' kind' w,
+      In (OOpen side kind cap slot) ops /\ In (OOpen side' kind' cap w) ops /\ side <> side' /\ (kind =? 0) <> (kind' =? 0) /\
+      forall pre x post, rs = pre ++ x :: post ->
+        let off := fold_right (fun y acc => snd (fst y) + acc) 0 pre in
+        snd x = hash_bytes (gen_bytes (data_byte w) off (snd (fst x))).
+
+(* the full property = the theorems above + this remaining statement *)
+Definition C14_full : Prop := C14_remaining_isolation_and_order.
+
+(* non-vacuity of the system-level theorems: a reachable state in which B's application holds one
+   transient stream on its accept queue of capability 0 and frames are buffered for it *)
+Example C14_reachable_nonvacuous :
+  let a := mkSide (mkCfg 100 1000 10 150) [(0, 2)] [(0, 2); (3, 1)] in
+  let b := mkSide (mkCfg 80 800 7 79) [(0, 3); (3, 1)] [(0, 1)] in
+  let ops := [OOpen 0 1 0 1; OOpen 1 0 0 2; OWrite 1 500; OFlush 1] in
+  let s := fold_left step_sys ops (sys_start false a b) in
+  reachable false a b s /\ length (open_transient (sB s) 0 0) = 1%nat /\ sum_data (ep_held (sB s)) = 500.
+Proof. split; [eexists; reflexivity|]. vm_compute. split; reflexivity. Qed.
 
 (* ---- non-vacuity: the worked example of the module documentation runs in the model: both ends
    open, 500 bytes written, a 100-byte read completes with the first 100 bytes, the remaining 400
